@@ -92,6 +92,110 @@ HAND = [
 ]
 
 
+# templates that move SEVERAL hydrogens: independent transfers (different donor/recipient pairs), several hydrogens between
+# the same two atoms, and both at once.  Each is applied to substrates rewritten in several atom / fragment orders
+# (the pairing of donors with recipients in _explicit_h must follow the h_pairs groups, not the atom order).
+MULTIH = [
+    ("transfer-hydrogenation", "[CH3:7][C:1]([H:5])([CH3:8])[O:2][H:6].[CH3:9][C:3](=[O:4])[CH3:10]>>[CH3:7][C:1]([CH3:8])=[O:2].[CH3:9][C:3]([H:5])([CH3:10])[O:4][H:6]",
+     ["CC(O)C.CC(=O)CC", "CC(O)C.O=C(C)CC", "OC(C)CC.CC(=O)C", "CC(O)CO.O=C(C)C(C)=O"]),
+    ("transfer-hydrogenation-centre", "[C:1]([H:5])[O:2][H:6].[C:3]=[O:4]>>[C:1]=[O:2].[C:3]([H:5])[O:4][H:6]",
+     ["CC(O)C.CC(=O)CC", "CC(O)C.O=C(C)CC", "OCC.O=CC"]),
+    ("aldol-condensation", "[CH3:1][C:2](=[O:3])[C:4]([H:8])([H:9])[H:10].[CH3:5][C:6](=[O:7])[H:11]>>[CH3:1][C:2](=[O:3])[C:4]([H:10])=[C:6]([CH3:5])[H:11].[O:7]([H:8])[H:9]",
+     ["CC(=O)C.CC=O", "O=CC.CC(C)=O"]),
+    ("diimide-type", "[N:1]([H:5])([H:6])[N:2]([H:7])[H:8].[C:3]#[C:4]>>[N:1]#[N:2].[C:3]([H:5])([H:6])[C:4]([H:7])[H:8]",
+     ["NN.C#C", "C#CC.NN", "CC#CC.NN"]),
+    ("imine-transfer-mixed", "[C:1]([H:5])([H:9])[N:2]([H:6])[H:10].[C:3]#[N:4]>>[C:1]#[N:2].[C:3]([H:5])([H:9])[N:4]([H:6])[H:10]",
+     ["CCN.CC#N", "N#CC.NCC", "NCC.N#CC"]),
+    ("three-transfers", "[C:1]([H:5])[O:2][H:6].[C:3]=[O:4].[S:7][H:8].[N:9]>>[C:1]=[O:2].[C:3]([H:5])[O:4][H:6].[S-:7].[N+:9][H:8]",
+     ["CC(O)C.CC(=O)C.CS.CN(C)C", "CN(C)C.SC.O=C(C)C.OC(C)C"]),
+]
+
+
+def _reorder(smi, rng):
+    """the same molecule(s) written with the atoms in a PRNG-chosen order (fragment order follows the atom order)"""
+    from rdkit import Chem
+    m = Chem.MolFromSmiles(smi)
+    perm = list(range(m.GetNumAtoms()))
+    rng.shuffle(perm)
+    return Chem.MolToSmiles(Chem.RenumberAtoms(m, perm), canonical=False)
+
+
+def _multih_cases(rng, full):
+    from rdkit import Chem
+    out = []
+    nre = 6 if full else 3
+    for name, r, subs in MULTIH:
+        a, b = r.split(">>")
+        for sub in subs:
+            variants = [sub] + [_reorder(sub, rng) for _ in range(nre)]
+            for k, sv in enumerate(dict.fromkeys(variants)):
+                for mode in (("E", "S") if full or k == 0 else ("E",)):
+                    for core in ((True, False) if full or k < 2 else (True,)):
+                        out.append(dict(kind="multi-h", name="multih:%s:%s:%s:%s" % (name, "centre" if core else "full", sv, mode),
+                                        tpl=dict(rsmi=r, core=core), sub=sv, invert=False,
+                                        strategy="all" if k == 0 else rng.choice(["all", "comp", "bt"]), mode=mode))
+        # backward on the template's own products, several atom orders
+        try:
+            m = Chem.MolFromSmiles(b)
+            for at in m.GetAtoms():
+                at.SetAtomMapNum(0)
+            psub = Chem.MolToSmiles(Chem.RemoveHs(m))
+            for sv in dict.fromkeys([psub] + [_reorder(psub, rng) for _ in range(nre)]):
+                out.append(dict(kind="multi-h", name="multih:%s:bwd:%s" % (name, sv), tpl=dict(rsmi=r, core=True), sub=sv,
+                                invert=True, strategy="all", mode="E"))
+        except Exception:
+            pass
+    return out
+
+
+def _syn_transfer_case(rng):
+    """graph level: 2-3 independent (donor, recipient) pairs, 1-2 hydrogens each, written with explicit H atoms, planted on a
+    host whose node ids and insertion order are random (so donors and recipients come in every relative order)"""
+    els = ["C", "N", "O", "S", "P"]
+    ng = rng.randint(2, 3)
+    ids = rng.sample(range(1, 30), 2 * ng + rng.randint(0, 2))
+    tids = rng.sample(range(1, 40), 2 * ng)
+    hnodes, tn, te = {}, [], []
+    nh = max(tids) + 1
+    hedges = {}
+    for gi in range(ng):
+        d, r = ids[2 * gi], ids[2 * gi + 1]
+        td, tr = tids[2 * gi], tids[2 * gi + 1]
+        mult = rng.choice([1, 1, 2])
+        ed, er = rng.choice(els), rng.choice(els)
+        hnodes[d] = {"element": ed, "aromatic": False, "hcount": mult + rng.randint(0, 1), "charge": 0, "neighbors": [], "atom_map": 0}
+        hnodes[r] = {"element": er, "aromatic": False, "hcount": rng.randint(0, 2), "charge": 0, "neighbors": [], "atom_map": 0}
+        tn.append([td, [ed, False, 0, 0, []], [ed, False, 0, 0, []]])
+        tn.append([tr, [er, False, 0, 0, []], [er, False, 0, 0, []]])
+        for _ in range(mult):
+            tn.append([nh, ["H", False, 0, 0, []], ["H", False, 0, 0, []]])
+            te.append([td, nh, 1, 0, 1])
+            te.append([tr, nh, 0, 1, -1])
+            nh += 1
+        z = rng.random()
+        if z < 0.35:                                   # the pair is also bonded: bond order changes with the transfer
+            o = rng.choice([1, 2])
+            hedges[(d, r)] = o
+            te.append([td, tr, o, o + rng.choice([-1, 1]) if o == 2 else 2, 0])
+            te[-1][4] = te[-1][2] - te[-1][3]
+    for x in ids[2 * ng:]:
+        hnodes[x] = {"element": rng.choice(els), "aromatic": False, "hcount": rng.randint(0, 3), "charge": 0, "neighbors": [], "atom_map": 0}
+        y = rng.choice(ids[:2 * ng])
+        hedges[(x, y)] = 1
+    order = list(hnodes)
+    rng.shuffle(order)
+    host = {"nodes": [[i, hnodes[i]] for i in order], "edges": [[u, v, {"order": o}] for (u, v), o in hedges.items()]}
+    inv = rng.random() < 0.3
+    if inv:
+        tn = [[n_, h_, g_] for n_, g_, h_ in tn]
+        te = [[u, v, r_, l_, -s_] for u, v, l_, r_, s_ in te]
+    rng.shuffle(tn)
+    rng.shuffle(te)
+    tpl = {"nodes": [[n_, {"element": g_[0], "charge": g_[3], "atom_map": n_, "typesGH": [g_, h_]}] for n_, g_, h_ in tn],
+           "edges": [[u, v, {"order": [l_, r_], "standard_order": s_}] for u, v, l_, r_, s_ in te]}
+    return dict(kind="synthetic-transfer", tpl={"graph": tpl}, sub={"graph": host}, invert=inv, strategy=rng.choice(["all", "comp", "bt"]), mode="E")
+
+
 def worker_init():
     K.quiet()
 
@@ -217,7 +321,7 @@ def impl(case):
                     gl.append([])
                     continue
                 g = out[j]
-                o = [K.its_obs(g), _branches(base, rule.rc.raw, mm), K.explicit_h_obs(g, after[k + j]) if show_ex else []]
+                o = [K.its_obs(g), _branches(base, rule.rc.raw, mm), [K.explicit_h_obs(g, after[k + j]), K.explicit_h_wiring(g, after[k + j])] if show_ex else []]
                 gl.append([o])
                 j += 1
             row.append(gl)
@@ -254,7 +358,7 @@ def coq_case(case):
         cr = "None" if remaps is None else "(Some %s)" % K.cl([K.cl(["(%s, %s)" % (K.cN(p), K.cN(h)) for p, h in x]) for x in remaps])
         calls.append("(%s, %s)" % (cm, cr))
     mode = case.get("mode", "E")
-    return "run_c03 %s %s %s %s %s %s" % (K.cb(case.get("invert", False)), K.cb(mode == "I"), K.cb(mode == "E"), host, tpl, K.cl(calls))
+    return "run_c03w %s %s %s %s %s %s" % (K.cb(case.get("invert", False)), K.cb(mode == "I"), K.cb(mode == "E"), host, tpl, K.cl(calls))
 
 
 # ------------------------------------------------------------------ property oracle (independent of the model)
@@ -518,7 +622,7 @@ def gen_cases(tier, rng):
     K.quiet()
     idx = {n: _wellformed(n) for n in ("usp", "eco")}
     pairs = json.load(open(os.path.join(K.VERIF, "corpus", "C03_pairs.json")))["pairs"]
-    cases = _hand_cases(rng, tier != "quick")
+    cases = _hand_cases(rng, tier != "quick") + _multih_cases(rng, tier != "quick")
     strategies = ["all", "comp", "bt"]
     if tier == "quick":
         pick = {"usp": rng.sample(idx["usp"], 16), "eco": rng.sample(idx["eco"], 24)}     # 40 reactions
@@ -551,6 +655,8 @@ def gen_cases(tier, rng):
         nsyn = 6000
     for _ in range(nsyn):
         cases.append(_syn_case(rng))
+    for _ in range(120 if tier == "quick" else 1500):
+        cases.append(_syn_transfer_case(rng))
     return prepare_all(cases)
 
 
